@@ -21,7 +21,7 @@ pub mod io {
     }
     pub type Result<T> = core::result::Result<T, Error>;
     pub enum SeekFrom { Start(u64), End(i64), Current(i64) }
-    pub use super::{Read, Write, Seek, Cursor, Take, BufReader, DynRead};
+    pub use super::{Read, Write, Seek, Cursor, Take, BufReader, DynRead, DynWrite};
 }
 
 pub struct LittleEndian;
@@ -225,6 +225,8 @@ pub open spec fn wr_n<T: Dev + ?Sized>(a: &T, b: &T, ok: bool, w: Seq<u8>) -> bo
 }
 pub trait Write: Dev {
     fn write(&mut self, buf: &[u8]) -> (r: io::Result<usize>)
+        requires
+            old(self).g_ready(),
         ensures
             old(self).g_inv() ==> final(self).g_inv(),
             dev_step(old(self), final(self)),
@@ -233,6 +235,8 @@ pub trait Write: Dev {
             old(self).g_dev() ==> (r matches Ok(n) ==> (buf@.len() > 0 ==> n > 0)
                 && wr_n(old(self), final(self), true, buf@.subrange(0, n as int)));
     fn flush(&mut self) -> (r: io::Result<()>)
+        requires
+            old(self).g_ready(),
         ensures
             old(self).g_inv() ==> final(self).g_inv(),
             dev_step(old(self), final(self)),
@@ -241,6 +245,7 @@ pub trait Write: Dev {
                 && final(self).g_pos() == old(self).g_pos() && final(self).g_bytes() == old(self).g_bytes());
     #[verifier::external_body]
     fn write_all(&mut self, buf: &[u8]) -> (r: io::Result<()>)
+        requires old(self).g_ready(),
         ensures wr_n(old(self), final(self), r is Ok, buf@),
     { unimplemented!() }
 }
@@ -248,18 +253,22 @@ pub trait Write: Dev {
 pub trait WriteBytesExt: Write {
     #[verifier::external_body]
     fn write_u8(&mut self, v: u8) -> (r: io::Result<()>)
+        requires old(self).g_ready(),
         ensures wr_n(old(self), final(self), r is Ok, seq![v]),
     { unimplemented!() }
     #[verifier::external_body]
     fn write_u16<B>(&mut self, v: u16) -> (r: io::Result<()>)
+        requires old(self).g_ready(),
         ensures wr_n(old(self), final(self), r is Ok, le16(v)),
     { unimplemented!() }
     #[verifier::external_body]
     fn write_u32<B>(&mut self, v: u32) -> (r: io::Result<()>)
+        requires old(self).g_ready(),
         ensures wr_n(old(self), final(self), r is Ok, le32(v)),
     { unimplemented!() }
     #[verifier::external_body]
     fn write_u64<B>(&mut self, v: u64) -> (r: io::Result<()>)
+        requires old(self).g_ready(),
         ensures wr_n(old(self), final(self), r is Ok, le64(v)),
     { unimplemented!() }
 }
@@ -349,4 +358,35 @@ pub struct BufReader<R> { r: R }
 impl<R> BufReader<R> {
     pub uninterp spec fn g_inner(&self) -> R;
     #[verifier::external_body] pub fn into_inner(self) -> (r: R) ensures r == self.g_inner() { unimplemented!() }
+}
+
+// T8: `&mut dyn Write` (GenericZipWriter::ref_mut) is represented by this opaque reborrow of some writer
+#[verifier::external_body]
+pub struct DynWrite<'a> { w: &'a mut u8 }
+impl<'a> Dev for DynWrite<'a> {
+    uninterp spec fn g_dev(&self) -> bool;
+    uninterp spec fn g_bytes(&self) -> Seq<u8>;
+    uninterp spec fn g_pos(&self) -> int;
+    uninterp spec fn g_fault(&self) -> bool;
+}
+impl<'a> Write for DynWrite<'a> {
+    #[verifier::external_body]
+    fn write(&mut self, buf: &[u8]) -> (r: io::Result<usize>) { unimplemented!() }
+    #[verifier::external_body]
+    fn flush(&mut self) -> (r: io::Result<()>) { unimplemented!() }
+}
+// impl Write for Vec<u8> (std): appends everything, never fails
+impl Dev for Vec<u8> {
+    open spec fn g_dev(&self) -> bool { false }
+    open spec fn g_bytes(&self) -> Seq<u8> { Seq::empty() }
+    open spec fn g_pos(&self) -> int { 0 }
+    open spec fn g_fault(&self) -> bool { false }
+}
+impl Write for Vec<u8> {
+    #[verifier::external_body]
+    fn write(&mut self, buf: &[u8]) -> (r: io::Result<usize>)
+        ensures r == Ok::<usize, io::Error>(buf@.len() as usize), final(self)@ == old(self)@ + buf@
+    { unimplemented!() }
+    #[verifier::external_body]
+    fn flush(&mut self) -> (r: io::Result<()>) ensures r is Ok, final(self)@ == old(self)@ { unimplemented!() }
 }
